@@ -48,29 +48,31 @@ Print Assumptions PIPE_ids_unique_fifo_partial.
 (* ---------- C07_ids_unique over the whole build ---------- *)
 
 (* For every tree of well-formed documents ([tree_wf], Res/PipelineWfProofs.v: the domain of
-   PIPE_accumulate_ids_distinct) the outputs of a successful build have pairwise distinct ids. The steps done once at
-   the top are covered: the hash suffixes (the HashTransformer renames without re-checking: all hashes have 10
-   characters, so two hashed names only clash when the names clashed before; a hashed name can still hit a resource
-   that keeps its name - [no_plain_clash], the guard the C07 finding forces), IgnoreLocal (only removes) and the
-   sort (legacy: re-Append, so no guard at all; otherwise nothing is re-checked). *)
+   PIPE_accumulate_ids_distinct) the outputs of a successful build have pairwise distinct ids, for EVERY sort order and
+   without any further hypothesis. The steps done once at the top are covered: the hash suffixes (the HashTransformer
+   re-checks the ids it produced since fix 9a490e0: [hash_check]), name references (never touch an identity field),
+   IgnoreLocal (only removes) and the sort (legacy: re-Append; otherwise nothing changes). *)
 Theorem C07_ids_unique_build :
-  forall nonstr o t outs,
-    tree_wf t -> build nonstr o t = Ok outs ->
-    (match o with
-     | PSortLegacy _ _ => True
-     | _ => forall m m1, accumulate nonstr t = Ok m -> mapM (hash_res nonstr) m = Ok m1 -> no_plain_clash m1
-     end) ->
-    distinct_node_ids outs.
-Proof. exact build_ids_unique_wf. Qed.
+  forall nonstr o t outs, tree_wf t -> build nonstr o t = Ok outs -> distinct_node_ids outs.
+Proof. exact PipelineWfProofs.build_ids_unique_wf. Qed.
 Print Assumptions C07_ids_unique_build.
 
-(* the hash step alone, on a map of well-formed resources with distinct ids *)
+(* the hash step alone: distinct ids in, and the transformer's re-check passed: distinct ids out *)
 Theorem C07_ids_unique_hash_step :
+  forall nonstr m m1,
+    distinct_ids m -> mapM (hash_res nonstr) m = Ok m1 -> hash_check m1 = Ok tt -> distinct_ids m1.
+Proof. exact hash_check_distinct. Qed.
+Print Assumptions C07_ids_unique_hash_step.
+
+(* what the re-check replaces (model before the fix): with 10-character hashes two hashed names clash only if the names
+   did, so the only way the step could break uniqueness was a resource that keeps its name and already carries a
+   hashed one *)
+Theorem C07_ids_unique_hash_step_unchecked :
   forall nonstr m m1,
     Forall W m -> distinct_ids m -> mapM (hash_res nonstr) m = Ok m1 -> no_plain_clash m1 ->
     Forall W m1 /\ distinct_ids m1.
 Proof. exact hash_step_distinct. Qed.
-Print Assumptions C07_ids_unique_hash_step.
+Print Assumptions C07_ids_unique_hash_step_unchecked.
 
 
 (* ---------- C07_fixpoint over the whole build ---------- *)
@@ -86,7 +88,7 @@ Print Assumptions C07_ids_unique_hash_step.
        fifo / no order: the output ids are pairwise distinct - EXACTLY what the C07 finding (a local-config resource
        named like a hashed generated one) violates, so it cannot be dropped (that no output carries local-config then
        follows: a local-config resource survives IgnoreLocal only by sharing its id with a kept one);
-       C07_ids_unique_build discharges it for well-formed trees without a plain clash;
+       C07_ids_unique_build discharges it for well-formed trees: C07_fixpoint_build_wf;
      * the name-reference pass of the second build leaves the loaded documents alone (all candidates have an empty
        rename history, so no reference is rewritten; what remains is that the traversal of the reference paths
        neither fails nor promotes a null - not proved in general, stated as a hypothesis).
@@ -105,6 +107,23 @@ Theorem C07_fixpoint_build :
     build nonstr o (leaf name outs) = Ok outs.
 Proof. exact build_fixpoint. Qed.
 Print Assumptions C07_fixpoint_build.
+
+(* ... for trees of well-formed documents: no guard on the output ids, whatever the order *)
+Theorem C07_fixpoint_build_wf :
+  forall nonstr o t pre rules name,
+    tree_wf t ->
+    build_pre nonstr o t = Ok pre ->
+    Forall meta_clean pre ->
+    let outs := map strip_node pre in
+    (match o with
+     | PSortLegacy first last => node_order_total first last outs
+     | _ => True
+     end) ->
+    pipe_rules = Ok rules ->
+    nameref_transform pipe_cs nonstr rules (map load outs) = Ok (map load outs) ->
+    build nonstr o (leaf name outs) = Ok outs.
+Proof. exact build_fixpoint_wf. Qed.
+Print Assumptions C07_fixpoint_build_wf.
 
 (* [build_pre] is the build up to the final removal *)
 Theorem C07_build_pre_spec :
